@@ -10,6 +10,7 @@ import (
 	"go/token"
 	"os"
 	"path/filepath"
+	"runtime"
 	"sort"
 	"strings"
 
@@ -411,6 +412,23 @@ func suiteWalk(c *Ctx) error {
 		rp := map[string]interface{}{"module_root": root, "files": files, "results": summariseOutputs(results)}
 		c.Res.Evaluations++
 		c.Res.Nontrivial++
+		// a second pass with ONE worker: the files are then processed in list (= path) order, so whatever a
+		// later file of a directory could inherit from an earlier one (a shared load, a cache) is inherited
+		// deterministically and not only when the scheduler happens to order the workers that way
+		{
+			prev := runtime.GOMAXPROCS(1)
+			seq, _, serr := cli.ProcessFilesParallel(fsys, files, false, nil)
+			runtime.GOMAXPROCS(prev)
+			if serr == nil {
+				for _, o := range seq {
+					rel := strings.TrimPrefix(o.File, root+"/")
+					if why, bad := wantErr[rel]; bad && o.ErrorMessage == "" {
+						c.Violate("C16", "C16/unanalysable-file-without-error:"+strings.ReplaceAll(why, " ", "-"), fmt.Sprintf("%s (%s) is reported without an error and with %d functions when the files are processed one after the other", rel, why, len(o.Functions)),
+							map[string]interface{}{"module_root": root, "files": files, "results": summariseOutputs(seq), "workers": 1})
+					}
+				}
+			}
+		}
 		byFile := map[string][]models.FileOutput{}
 		for _, o := range results {
 			byFile[o.File] = append(byFile[o.File], o)
